@@ -27,7 +27,9 @@ class BuiltinMixin:
         items = self.concrete_items(x)
         if items is not None:
             return TV("int", z3.IntVal(len(items)))
-        h = x.hint or ""
+        from .interp_expr import base_hint
+
+        h = base_hint(x.hint)
         if h == "list":
             return TV("int", self.hread("llen", (self.as_addr(x),)))
         if h in ("dict", "set"):
@@ -41,6 +43,17 @@ class BuiltinMixin:
         if h == "tuple":
             f = z3.Function("tuple_len", Val, core.IntS)
             return TV("int", f(x.r))
+        if x.k == "val":
+            v = x.r
+            a = Val.a(v)
+            tl = z3.Function("tuple_len", Val, core.IntS)
+            self.require(z3.Or(Val.is_str(v), Val.is_ref(v), Val.is_cons(v), Val.is_nil(v)),
+                         "TypeError", "len() of unsized value")
+            return TV("int", z3.If(Val.is_str(v), z3.Length(Val.s(v)),
+                             z3.If(Val.is_ref(v),
+                                   z3.If(cls_of(a) == CLASSES.addr("list"), self.hread("llen", (a,)),
+                                         self.hread("dklen", (a,))),
+                                   tl(v))))
         raise Unsupported(f"len() of value without hint line {getattr(n,'lineno','?')}")
 
     def class_names_of(self, t):
@@ -104,7 +117,16 @@ class BuiltinMixin:
         return z3.simplify(z3.Or(*conds)) if conds else z3.BoolVal(False)
 
     def bi_isinstance(self, args, kw, n, frame):
-        return TV("bool", self.isinstance_cond(args[0], self.class_names_of(args[1])))
+        t = args[1]
+        if t.k == "val" and self.concrete_items(t) is None:
+            # class given as a run-time value
+            c = self.as_addr(t)
+            ty = self.bi_type([args[0]], {}, n, frame)
+            oc = Val.a(self.to_val(ty))
+            self.note_class_term(oc)
+            self.note_class_term(c)
+            return TV("bool", subclass(oc, c))
+        return TV("bool", self.isinstance_cond(args[0], self.class_names_of(t)))
 
     def bi_callable(self, args, kw, n, frame):
         x = args[0]
@@ -301,6 +323,8 @@ class BuiltinMixin:
             return self.new_dict([])
         if args and args[0].hint == "dict" and not kw:
             return self.dict_copy(args[0])
+        if args and args[0].hint == "list" and not kw and self.concrete_items(args[0]) is None:
+            return self.dict_from_pairs(args[0])
         raise Unsupported("dict(...) form")
 
     def dict_copy(self, d):
@@ -506,7 +530,7 @@ class BuiltinMixin:
         if z3.is_int_value(i) and i.as_long() == 0:
             self.require(ln > 0, "IndexError", "pop from empty list")
             v = self.hread("lelem", (a, z3.IntVal(0)))
-            oldrow = z3.Select(self.heap.cur["lelem"], a)
+            oldrow = self.row_const(a)
             row = fresh("pop_row", z3.ArraySort(core.IntS, Val))
             j = fresh("j", core.IntS)
             self.heap = self.heap.store("llen", (a,), z3.simplify(ln - 1))
@@ -519,6 +543,156 @@ class BuiltinMixin:
             self.closed(v)
             return self.from_val(v, self.elem_hint(recv))
         raise Unsupported("list.pop(i)")
+
+    def m_list_sort(self, recv, args, kw, n):
+        """list.sort(key=f, reverse=r): a permutation of the old contents,
+        ordered by the key (the key function is inlined on symbolic elements)"""
+        a = self.as_addr(recv)
+        ln = self.hread("llen", (a,))
+        oldrow = self.row_const(a)
+        row = fresh("sorted_row", z3.ArraySort(core.IntS, Val))
+        self.heap = self.heap.with_array("lelem", z3.Store(self.heap.cur["lelem"], a, row))
+        self.shape.pop(str(z3.simplify(a)), None)
+        key = kw.get("key")
+        rev = kw.get("reverse")
+        revc = self.truthy(rev) if rev is not None else z3.BoolVal(False)
+        qi, qj = fresh("qi", core.IntS), fresh("qj", core.IntS)
+
+        def keyof(idx):
+            x = TV("val", z3.Select(row, idx), self.elem_hint(recv))
+            if key is None:
+                return x
+            return self.call(key, [x], {}, n, None)
+
+        self.in_spec += 1
+        saved = self.spec_side
+        self.spec_side = []
+        try:
+            ki, kj = keyof(qi), keyof(qj)
+            le = self.compare(ast.LtE(), ki, kj, n)
+            ge = self.compare(ast.GtE(), ki, kj, n)
+            side = list(self.spec_side)
+        finally:
+            self.spec_side = saved
+            self.in_spec -= 1
+        self.assume(z3.ForAll([qi, qj], z3.Implies(z3.And(0 <= qi, qi < qj, qj < ln),
+                    z3.And(*side, z3.If(revc, ge, le))),
+                    patterns=[z3.MultiPattern(z3.Select(row, qi), z3.Select(row, qj))]))
+        # permutation: same length, every element comes from the old contents and vice versa
+        w1 = z3.Function(core.fresh_name("perm"), core.IntS, core.IntS)
+        w2 = z3.Function(core.fresh_name("perm_inv"), core.IntS, core.IntS)
+        q = fresh("q", core.IntS)
+        self.assume(z3.ForAll([q], z3.Implies(z3.And(0 <= q, q < ln),
+                    z3.And(0 <= w1(q), w1(q) < ln, z3.Select(row, q) == z3.Select(oldrow, w1(q)),
+                           w2(w1(q)) == q)), patterns=[z3.Select(row, q)]))
+        self.assume(z3.ForAll([q], z3.Implies(z3.And(0 <= q, q < ln),
+                    z3.And(0 <= w2(q), w2(q) < ln, z3.Select(oldrow, q) == z3.Select(row, w2(q)),
+                           w1(w2(q)) == q)), patterns=[z3.Select(oldrow, q)]))
+        return tv_none()
+
+    def bi_sorted(self, args, kw, n, frame):
+        """sorted(iterable, key=f, reverse=r): a fresh list, permutation of the
+        iterable's items, ordered by the key"""
+        items = self.iter_items(args[0])
+        if items is not None:
+            src = self.new_list(items)
+        elif args[0].k == "val" and args[0].hint == "list":
+            src = args[0]
+        else:
+            src = self.materialize(args[0])
+            if args[0].k == "py" and isinstance(args[0].r, tuple) and args[0].r[:2] == ("dictview", "items"):
+                self.elem_hints[str(src.r)] = "tuple"
+        sa = self.as_addr(src)
+        ln = self.hread("llen", (sa,))
+        srcrow = self.row_const(sa)
+        b = self.alloc("list")
+        row = fresh("sorted_row", z3.ArraySort(core.IntS, Val))
+        self.heap = self.heap.store("llen", (b,), ln, bump=False)
+        self.heap = self.heap.with_array("lelem", z3.Store(self.heap.cur["lelem"], b, row), bump=False)
+        out = TV("val", mk_ref(b), "list")
+        eh = self.elem_hints.get(str(src.r))
+        if eh:
+            self.elem_hints[str(out.r)] = eh
+        key = kw.get("key")
+        rev = kw.get("reverse")
+        revc = self.truthy(rev) if rev is not None else z3.BoolVal(False)
+        qi, qj = fresh("qi", core.IntS), fresh("qj", core.IntS)
+
+        def keyof(idx):
+            x = TV("val", z3.Select(row, idx), eh)
+            if key is None:
+                return x
+            return self.call(key, [x], {}, n, None)
+
+        self.in_spec += 1
+        saved = self.spec_side
+        self.spec_side = []
+        try:
+            ki, kj = keyof(qi), keyof(qj)
+            le = self.compare(ast.LtE(), ki, kj, n)
+            ge = self.compare(ast.GtE(), ki, kj, n)
+            side = list(self.spec_side)
+        finally:
+            self.spec_side = saved
+            self.in_spec -= 1
+        self.assume(z3.ForAll([qi, qj], z3.Implies(z3.And(0 <= qi, qi < qj, qj < ln),
+                    z3.And(*side, z3.If(revc, ge, le))),
+                    patterns=[z3.MultiPattern(z3.Select(row, qi), z3.Select(row, qj))]))
+        w1 = z3.Function(core.fresh_name("perm"), core.IntS, core.IntS)
+        w2 = z3.Function(core.fresh_name("perm_inv"), core.IntS, core.IntS)
+        q = fresh("q", core.IntS)
+        self.assume(z3.ForAll([q], z3.Implies(z3.And(0 <= q, q < ln),
+                    z3.And(0 <= w1(q), w1(q) < ln, z3.Select(row, q) == z3.Select(srcrow, w1(q)),
+                           w2(w1(q)) == q)), patterns=[z3.Select(row, q)]))
+        self.assume(z3.ForAll([q], z3.Implies(z3.And(0 <= q, q < ln),
+                    z3.And(0 <= w2(q), w2(q) < ln, z3.Select(srcrow, q) == z3.Select(row, w2(q)),
+                           w1(w2(q)) == q)), patterns=[z3.Select(srcrow, q)]))
+        return out
+
+    def materialize(self, it):
+        """a fresh list holding the items of a symbolic iterable (dict views ...)"""
+        ln, get = self.seq_access(it)
+        b = self.alloc("list")
+        row = fresh("mat_row", z3.ArraySort(core.IntS, Val))
+        self.heap = self.heap.store("llen", (b,), ln, bump=False)
+        self.heap = self.heap.with_array("lelem", z3.Store(self.heap.cur["lelem"], b, row), bump=False)
+        q = fresh("q", core.IntS)
+        self.in_spec += 1
+        saved = self.spec_side
+        self.spec_side = []
+        try:
+            item = get(q)
+            side = list(self.spec_side)
+        finally:
+            self.spec_side = saved
+            self.in_spec -= 1
+        self.assume(z3.ForAll([q], z3.Implies(z3.And(0 <= q, q < ln),
+                    z3.And(*side, z3.Select(row, q) == self.to_val(item))), patterns=[z3.Select(row, q)]))
+        return TV("val", mk_ref(b), "list")
+
+    def dict_from_pairs(self, lst):
+        """dict(list of (key, value) pairs) with pairwise distinct keys
+        (A-DISTINCT-KEYS: stated as an obligation at the call site)"""
+        a = self.as_addr(lst)
+        ln = self.hread("llen", (a,))
+        srcrow = self.row_const(a)
+        d = self.alloc("dict")
+        keyrow = fresh("dk_row", z3.ArraySort(core.IntS, Val))
+        hasrow = fresh("dh_row", z3.ArraySort(Val, core.BoolS))
+        valrow = fresh("dv_row", z3.ArraySort(Val, Val))
+        h = self.heap.store("dklen", (d,), ln, bump=False)
+        h = h.with_array("dkey", z3.Store(h.cur["dkey"], d, keyrow), bump=False)
+        h = h.with_array("dhas", z3.Store(h.cur["dhas"], d, hasrow), bump=False)
+        h = h.with_array("dval", z3.Store(h.cur["dval"], d, valrow), bump=False)
+        self.heap = h
+        q = fresh("q", core.IntS)
+        pair = z3.Select(srcrow, q)
+        k = Val.hd(pair)
+        v = Val.hd(Val.tl(pair))
+        self.assume(z3.ForAll([q], z3.Implies(z3.And(0 <= q, q < ln),
+                    z3.And(z3.Select(keyrow, q) == k, z3.Select(hasrow, k), z3.Select(valrow, k) == v)),
+                    patterns=[z3.Select(srcrow, q), z3.Select(keyrow, q)]))
+        return TV("val", mk_ref(d), "dict")
 
     def m_list_index(self, recv, args, kw, n):
         items = self.concrete_items(recv)
